@@ -3,6 +3,8 @@
 # Copyright (c) Jupyter Development Team.
 # Distributed under the terms of the Modified BSD License.
 
+import copy
+
 from .log import NBDiffFormatError
 
 
@@ -46,7 +48,8 @@ class DiffOp:
 
 def op_add(key, value):
     "Create a diff entry to add value at/before key."
-    return DiffEntry(op=DiffOp.ADD, key=key, value=value)
+    # Values are copied so that the diff does not alias the diffed documents
+    return DiffEntry(op=DiffOp.ADD, key=key, value=copy.deepcopy(value))
 
 def op_remove(key):
     "Create a diff entry to remove value at key."
@@ -54,11 +57,11 @@ def op_remove(key):
 
 def op_replace(key, value):
     "Create a diff entry to replace value at key with given value."
-    return DiffEntry(op=DiffOp.REPLACE, key=key, value=value)
+    return DiffEntry(op=DiffOp.REPLACE, key=key, value=copy.deepcopy(value))
 
 def op_addrange(key, valuelist):
     "Create a diff entry to add given list of values before key."
-    return DiffEntry(op=DiffOp.ADDRANGE, key=key, valuelist=valuelist)
+    return DiffEntry(op=DiffOp.ADDRANGE, key=key, valuelist=copy.deepcopy(valuelist))
 
 def op_removerange(key, length):
     "Create a diff entry to remove values in range key:key+length."
